@@ -492,6 +492,7 @@ def run(ctx):
             ctx.case(case, nontrivial=p > 1 and nsamp >= 1)
             if p > nsamp:
                 ctx.stat("more-ranks-than-samples")
+                ctx.stat("more-ranks-than-samples:" + s["scen"])
             if j is not None:
                 ctx.counterexample(case, *j)
                 continue
